@@ -29,7 +29,8 @@ func (k TKey) MarshalText() ([]byte, error) {
 
 // MarshalCase is one Go value that may collide names / hold ill-formed UTF-8.
 type MarshalCase struct {
-	Family int      `json:"family"` // 0 text keys, 1 interface keys, 2 fallback vs field, 3 ill-formed values, 4 ill-formed keys, 5 raw value (jsontext.Value) object with such names
+	Family int      `json:"family"`            // 0 text keys, 1 interface keys, 2 fallback vs field, 3 ill-formed values, 4 ill-formed keys, 5 raw value (jsontext.Value) object with such names, 6 keys renamed by caller-supplied functions
+	Var    int      `json:"variant,omitempty"` // family 2: which struct (plain, case options + map fallback, case options + raw fallback); family 6: key kind
 	Keys   [][]byte `json:"keys"`
 	Kinds  []int    `json:"kinds"`  // family 1: dynamic kind per key
 	Nested int      `json:"nested"` // wrap the value in this many slices / struct fields
@@ -43,7 +44,7 @@ var badKeyPool = []string{"\xff", "\xfe", "a\xff", "a\xfe", "ok", "�", "a�",
 var strPool = []string{"ok", "", "\xff", "a\x80b", "é", "\xc0\x80", "\xf4\x90\x80\x80", "<>", "\xe2\x82"}
 
 func genMarshal(t *rapid.T) MarshalCase {
-	c := MarshalCase{Family: rapid.IntRange(0, 5).Draw(t, "family"), Nested: rapid.IntRange(0, 3).Draw(t, "nested"),
+	c := MarshalCase{Family: rapid.IntRange(0, 6).Draw(t, "family"), Var: rapid.IntRange(0, 2).Draw(t, "variant"), Nested: rapid.IntRange(0, 3).Draw(t, "nested"),
 		UTF8: rapid.Bool().Draw(t, "utf8"), Dup: rapid.Bool().Draw(t, "dup"), Determ: rapid.Bool().Draw(t, "determ")}
 	n := rapid.IntRange(1, 4).Draw(t, "n")
 	for i := 0; i < n; i++ {
@@ -57,6 +58,8 @@ func genMarshal(t *rapid.T) MarshalCase {
 			c.Keys = append(c.Keys, []byte(rapid.SampledFrom([]string{"A", "B", "a", "C", "A", "A "}).Draw(t, "fkey")))
 		case 3:
 			c.Keys = append(c.Keys, []byte(rapid.SampledFrom(strPool).Draw(t, "sval")))
+		case 6:
+			c.Keys = append(c.Keys, []byte(rapid.SampledFrom([]string{"0", "1", "2", "3", "4", "5"}).Draw(t, "fnkey")))
 		default:
 			c.Keys = append(c.Keys, []byte(rapid.SampledFrom(badKeyPool).Draw(t, "bkey")))
 		}
@@ -68,6 +71,32 @@ type withFallback struct {
 	A int
 	B string         `json:"B"`
 	X map[string]int `json:",embed"`
+}
+
+// withFallbackCase: the fields carry case options (a strict field is looked up
+// by its exact name only, an ignoring one also by its folded name).
+type withFallbackCase struct {
+	A int            `json:",case:strict"`
+	B string         `json:"B,case:ignore"`
+	X map[string]int `json:",embed"`
+}
+
+type withFallbackRaw struct {
+	A int            `json:",case:strict"`
+	B string         `json:"B"`
+	X jsontext.Value `json:",embed"`
+}
+
+// renameInt / renameStr map distinct Go keys onto few JSON names.
+func renameInt(k int) string    { return fmt.Sprintf("n%d", k%2) }
+func renameStr(k string) string { return fmt.Sprintf("s%d", len(k)%2+int(k[0])%2) }
+
+// renamers returns a fresh Marshalers value renaming map keys of the variant's key type.
+func renamers(variant int) *json.Marshalers {
+	if variant%2 == 0 {
+		return json.MarshalFunc(func(k int) ([]byte, error) { return []byte(`"` + renameInt(k) + `"`), nil })
+	}
+	return json.MarshalFunc(func(k string) ([]byte, error) { return []byte(`"` + renameStr(k) + `"`), nil })
 }
 
 type strHolder struct {
@@ -137,6 +166,42 @@ func (c *MarshalCase) value() (v any, names []string, bad bool, members int) {
 			names = append(names, k)
 		}
 		v, members = w, len(names)
+		switch c.Var % 3 {
+		case 1:
+			v = withFallbackCase{A: 1, B: "b", X: w.X}
+		case 2:
+			// the same members as a raw object (every key once: a raw value
+			// that repeats a name is a duplicate by itself)
+			raw := []byte{'{'}
+			for k, i := range w.X {
+				if len(raw) > 1 {
+					raw = append(raw, ',')
+				}
+				q, _ := ref.Quote(k, false, false)
+				raw = append(append(append(raw, q...), ':'), byte('0'+i%10))
+			}
+			v = withFallbackRaw{A: 1, B: "b", X: jsontext.Value(append(raw, '}'))}
+		}
+	case 6:
+		if c.Var%2 == 0 {
+			m := map[int]int{}
+			for i, k := range c.Keys {
+				m[int(k[0]-'0')] = i
+			}
+			for k := range m {
+				names = append(names, renameInt(k))
+			}
+			v, members = m, len(m)
+		} else {
+			m := map[string]int{}
+			for i, k := range c.Keys {
+				m["k"+string(k)] = i
+			}
+			for k := range m {
+				names = append(names, renameStr(k))
+			}
+			v, members = m, len(m)
+		}
 	case 3:
 		h := strHolder{M: map[string]string{}}
 		for i, k := range c.Keys {
@@ -245,6 +310,16 @@ func RunMarshal(c MarshalCase) error {
 	opts := []json.Options{jsontext.AllowInvalidUTF8(c.UTF8), jsontext.AllowDuplicateNames(c.Dup), json.Deterministic(c.Determ)}
 	var out []byte
 	var err error
+	if c.Family == 6 {
+		// The functions are looked up once per options value and type: a
+		// first call with a harmless map puts them into that cache.
+		opts = append(opts, json.WithMarshalers(renamers(c.Var)))
+		if c.Var%2 == 0 {
+			json.Marshal(map[int]int{7: 7}, opts...)
+		} else {
+			json.Marshal(map[string]int{"warm": 7}, opts...)
+		}
+	}
 	if p := rt.Guard(func() { out, err = json.Marshal(v, opts...) }); p != nil {
 		return fmt.Errorf("Marshal panicked: %v\ncase %+v", p, c)
 	}
